@@ -106,7 +106,7 @@ fn rewrite_try(src: &str, parenthesised: bool) -> Option<String> {
 /// Is there a `#[doc ..]` attribute whose closing bracket is followed by another token on the
 /// same line?
 fn doc_attr_shares_line(src: &str) -> bool {
-    let toks: Vec<_> = crate::lex::lex(src).into_iter().filter(|t| !t.kind.is_trivia() || t.text(src).contains('\n')).collect();
+    let toks = crate::lex::significant(src);
     let mut i = 0;
     while i + 2 < toks.len() {
         if toks[i].text(src) == "#" && toks[i + 1].text(src) == "[" && toks[i + 2].text(src) == "doc" {
@@ -125,8 +125,8 @@ fn doc_attr_shares_line(src: &str) -> bool {
                 }
                 k += 1;
             }
-            if let Some(next) = toks.get(k + 1) {
-                if !next.kind.is_trivia() {
+            if let (Some(close), Some(next)) = (toks.get(k), toks.get(k + 1)) {
+                if !src[close.hi..next.lo].contains('\n') {
                     return true;
                 }
             }
